@@ -15,7 +15,7 @@ REPO = "/repo"
 PV = os.environ.get("PV", "/verif/bin/pv")
 
 def sh(*a, **k):
-    return subprocess.run(a, capture_output=True, text=True, **k)
+    return subprocess.run(a, capture_output=True, text=True, errors="replace", **k)
 
 def expected(path):
     meta = os.path.join(os.path.dirname(path), "meta.json")
